@@ -282,10 +282,11 @@ def one_case(ctx, r, kind, spec, malformed, items, metas, stats):
 def run(ctx, info):
     ctx.trusted += ["T-core translator + PyLib.v (np.clip -> xclip, int() -> xtrunc, np.argsort -> any valid argsort / argsort_nat)",
                     "xnum embedding (pv/lit.py)", "hand model of random sampling (tied by correspondence only); the multi-variable classes are regenerated and bridged (MultiVarBridge.v), child names abstracted away"]
-    ctx.assumptions += ["inputs to correct are not NaN (the property says finite); bounds are finite; choice lists are non-empty; items distinct"]
+    ctx.assumptions += ["inputs to correct are not NaN (the property says finite); bounds are finite; choice lists are non-empty; labels are compared modulo Python's == (True is 1)"]
     st = info.get("regen", {})
     ctx.ties = {k: st.get(k) for k in ("gen_cont_correct", "gen_cont_validate", "gen_disc_get_bounds", "gen_disc_correct", "gen_disc_decode",
-                                        "gen_perm_correct", "gen_perm_decode", "gen_binary_validate")}
+                                        "gen_perm_correct", "gen_perm_labels", "gen_perm_decode", "gen_binary_validate",
+                                        "gen_le_fit_labels", "gen_le_fit_index", "gen_le_transform", "gen_le_inverse_transform")}
     ctx.ties.update({k: st.get(k) for k in sorted(st) if k.startswith(("gen_cmv_", "gen_mov_", "gen_dmv_", "gen_bin_")) and not k.endswith("_mutates_param")})
     ctx.ties.update({"randomize (all kinds)": "correspondence", "dispatch class -> model constructor": "correspondence"})
     r = ctx.rng
@@ -352,6 +353,7 @@ def run(ctx, info):
                   [metas[0], metas[len(metas) // 2], metas[-1]])
     ctx.coverage["input_distribution"] = {"kinds": kinds_seen, "correct_outcomes": stats, "malformed": n_mal, "random_samples": n_rand,
                                           "definitions": n_def, "definitions_rejected": rejected}
+    label_cases(ctx)
     for e in res["errors"]:
         ctx.broke("correspondence:C13 case evaluation", e)
     for i in res["bad"][:5]:
@@ -359,9 +361,146 @@ def run(ctx, info):
     ctx.coverage["correspondence"] = {"cases": res["n"], "disagreements": len(res["bad"]), "files": res["files"]}
 
 
+LABEL_PREAMBLE = r"""
+From PV Require Import Xnum Select PyLib Labels.
+From PVGen Require Import GenVars GenLabels.
+From PVBridge Require Import LabelsBridge.
+Fixpoint nl_eqb (a b : list nat) : bool :=
+  match a, b with [] , [] => true | x :: t, y :: u => Nat.eqb x y && nl_eqb t u | _, _ => false end.
+Definition onl_eqb (a b : option (list nat)) : bool :=
+  match a, b with None, None => true | Some x, Some y => nl_eqb x y | _, _ => false end.
+Definition U := 99.
+Inductive case :=
+| KFit (items labels : list nat)                                              (* the encoder's label list after PermutationVariable(items=...) *)
+| KLabels (items : list nat) (labels : option (list nat))                      (* the variable's per-item label table *)
+| KDecode (items corrected : list nat) (out : option (list nat))               (* decode of a value whose corrected form is `corrected` *)
+| KInverse (items y : list nat) (out : option (list nat))                      (* encoder.inverse_transform(y) *)
+| KTransform (items y : list nat) (out : option (list nat)).                   (* encoder.transform(y); None = KeyError *)
+Definition enc_labels items := gen_le_fit_labels nat Nat.eqb Nat.leb items.
+Definition enc_index items := gen_le_fit_index nat Nat.eqb items (enc_labels items).
+Definition check (c : case) : bool :=
+  match c with
+  | KFit items labels => nl_eqb (enc_labels items) labels
+  | KLabels items labels => onl_eqb (gen_perm_labels nat (fitted_transform nat Nat.eqb Nat.leb items) items) labels
+  | KDecode items corrected out =>
+      onl_eqb (obind (gen_perm_labels nat (fitted_transform nat Nat.eqb Nat.leb items) items) (fun labels => decode_labels nat labels corrected)) out
+      && onl_eqb (perm_decode_items nat Nat.eqb Nat.leb items corrected) out
+  | KInverse items y out => onl_eqb (gen_le_inverse_transform nat U (Some (enc_labels items)) (enc_index items) y) out
+  | KTransform items y out => onl_eqb (gen_le_transform nat Nat.eqb (Some (enc_labels items)) (enc_index items) y) out
+  end.
+"""
+
+# labels with a KNOWN place in the order of the sort key (isinstance(x, (int, float)), x): strings first (alphabetically), then numbers by value; True == 1
+LABEL_CODES = [("a", 0), ("b", 1), ("c", 2), ("d", 3), ("e", 4), (-2, 10), (-1.5, 11), (0, 12), (0.5, 13), (1, 14), (True, 14), (1.0, 14), (2, 15), (3.5, 16)]
+
+
+def label_code(x):
+    if isinstance(x, str): return 99 if x == "unknown" else {"a": 0, "b": 1, "c": 2, "d": 3, "e": 4}[x]
+    return {-2: 10, -1.5: 11, 0: 12, 0.5: 13, 1: 14, 2: 15, 3.5: 16}[x]
+
+
+def label_cases(ctx):
+    """PermutationVariable over item lists WITH REPEATED ITEMS and mixed label types: the decoded value is a rearrangement of the declared items, consistently with the
+    corrected index order (decided directly), and the LabelEncoder / label table / decode agree with the regenerated definitions evaluated in Coq"""
+    from pyvolutionary.models import PermutationVariable
+    r = ctx.rng
+    items_l, metas, alive = [], [], []
+    n = 250 if ctx.quick else 5000
+    opt = lambda l: "None" if l is None else f"(Some {natlist(l)})"
+    shapes = {"distinct": 0, "repeated": 0, "mixed-types": 0}
+    for k in range(n):
+        m = r.randint(1, 7)
+        pool = LABEL_CODES if r.random() < 0.5 else (LABEL_CODES[:5] if r.random() < 0.5 else LABEL_CODES[5:])
+        if r.random() < 0.45:
+            its = [x for x, _ in r.sample(pool, min(m, len(pool)))]
+            seen, its2 = set(), []
+            for x in its:
+                if label_code(x) not in seen: seen.add(label_code(x)); its2.append(x)
+            its = its2
+        else:
+            its = [r.choice(pool)[0] for _ in range(m)]
+        codes = [label_code(x) for x in its]
+        shapes["repeated" if len(set(codes)) < len(codes) else "distinct"] += 1
+        if any(isinstance(x, str) for x in its) and any(not isinstance(x, str) for x in its): shapes["mixed-types"] += 1
+        meta = {"kind": "perm-items", "items": repr(its)}
+        try:
+            var = PermutationVariable(name="p", items=list(its))
+        except Exception as e:
+            ctx.violation("perm-items:construction", f"PermutationVariable(items={its!r}) raised {type(e).__name__}: {e}", meta); continue
+        enc = var._label_encoder
+        items_l.append(f"KFit {natlist(codes)} {natlist([label_code(x) for x in enc.__unique_labels__])}"); metas.append(meta)
+        tab = getattr(var, "_labels", None)
+        if tab is not None:
+            items_l.append(f"KLabels {natlist(codes)} {opt([label_code(x) for x in tab])}"); metas.append(meta)
+        ident = var.decode(list(range(len(its))))
+        alive.append((var, its, list(range(len(its))), ident))
+        for _ in range(3):
+            mode = r.choice(["perm", "ties", "floats"])
+            if mode == "perm": val = r.sample(range(len(its)), len(its))
+            elif mode == "ties": val = [float(r.randint(0, 2)) for _ in its]
+            else: val = [r.uniform(-5, 5) for _ in its]
+            cor = [int(i) for i in var.correct(val)]
+            meta2 = {**meta, "value": repr(val)}
+            try:
+                out = var.decode(val)
+            except Exception as e:
+                ctx.violation("decode-raises:perm-items", f"PermutationVariable(items={its!r}).decode({val!r}) raised {type(e).__name__}: {e}", meta2); continue
+            try: oc = [label_code(x) for x in out]
+            except Exception: oc = None
+            if oc is None or sorted(oc) != sorted(codes):
+                ctx.violation("decode-not-rearrangement:perm-items", f"PermutationVariable(items={its!r}).decode({val!r}) = {out!r} is not a rearrangement of the declared items", meta2)
+            elif [label_code(x) for x in ident] and oc != [label_code(ident[j]) for j in cor]:
+                ctx.violation("decode-inconsistent:perm-items", f"PermutationVariable(items={its!r}).decode({val!r}) = {out!r} is inconsistent with the corrected index order {cor!r} (identity decodes to {ident!r})", meta2)
+            items_l.append(f"KDecode {natlist(codes)} {natlist(cor)} {opt(oc)}"); metas.append(meta2)
+            if r.random() < 0.3: alive.append((var, its, val, out))
+        # the encoder on its own: indexes beyond the labels, labels it has not seen
+        y = [r.randint(0, len(its) + 1) for _ in range(r.randint(0, 4))]
+        try: inv = [label_code(x) for x in enc.inverse_transform(list(y))]
+        except IndexError: inv = None
+        items_l.append(f"KInverse {natlist(codes)} {natlist(y)} {opt(inv)}"); metas.append({**meta, "inverse_transform": y})
+        ylab = [r.choice(LABEL_CODES)[0] for _ in range(r.randint(0, 3))]
+        try: tr_ = [int(i) for i in enc.transform(list(ylab))]
+        except KeyError: tr_ = None
+        items_l.append(f"KTransform {natlist(codes)} {natlist([label_code(x) for x in ylab])} {opt(tr_)}"); metas.append({**meta, "transform": repr(ylab)})
+    # variables do not influence one another: every earlier variable still decodes as it did when it was the newest one (no table shared between encoders)
+    changed = 0
+    for var, its, val, out in alive:
+        try: again = var.decode(val)
+        except Exception as e: again = f"{type(e).__name__}: {e}"
+        if repr(again) != repr(out):
+            changed += 1
+            if changed <= 3:
+                ctx.violation("decode-depends-on-other-variables:perm-items", f"PermutationVariable(items={its!r}).decode({val!r}) was {out!r}; after other permutation variables were "
+                              f"constructed in the same interpreter it is {again!r}", {"kind": "perm-items-sequence", "items": repr(its), "value": repr(val), "others": [repr(a[1]) for a in alive[:40]]})
+    res = coq.run_cases("C13L", LABEL_PREAMBLE, items_l, "check", shard=400)
+    for e in res["errors"]:
+        ctx.broke("correspondence:C13 label case evaluation", e)
+    for i in res["bad"][:5]:
+        ctx.broke(f"correspondence:Labels.v / GenLabels.v vs models.py on {json.dumps(metas[i], default=str)[:300]}", "model and implementation differ")
+    ctx.coverage["label_correspondence"] = {"cases": res["n"], "disagreements": len(res["bad"]), "files": res["files"], "item_lists": n, "shapes": shapes}
+    ctx.coverage["evaluations"] += res["n"]
+
+
 def replay(rep):
     print(json.dumps(rep, indent=1, default=str))
     m = rep["replay"]
+    if m.get("kind") == "perm-items-sequence":
+        from pyvolutionary.models import PermutationVariable
+        its = eval(m["items"]); val = eval(m["value"])
+        var = PermutationVariable(name="p", items=its); before = var.decode(val)
+        keep = [PermutationVariable(name="q", items=eval(o)) for o in m["others"]]
+        after = var.decode(val)
+        print("items:", its, " value:", val, " decode:", before, " after", len(keep), "other variables were built:", after)
+        return 0 if repr(before) == repr(after) else 1
+    if m.get("kind") == "perm-items":
+        from pyvolutionary.models import PermutationVariable
+        its = eval(m["items"]); var = PermutationVariable(name="p", items=its)
+        val = eval(m["value"]) if "value" in m else list(range(len(its)))
+        out = var.decode(val)
+        print("items:", its, " value:", val, " corrected:", var.correct(val), " decode:", out)
+        ok = sorted(map(repr, (label_code(x) for x in out if not (isinstance(x, str) and x == "unknown")))) == sorted(map(repr, (label_code(x) for x in its))) and "unknown" not in out
+        print("rearrangement of the declared items:", ok)
+        return 0 if ok else 1
     var = build(m["kind"], tuple(m["spec"]) if isinstance(m["spec"], list) and m["kind"] in ("cont", "contmulti", "multiobj") else m["spec"])
     print("variable:", var)
     if "value" in m:
